@@ -30,7 +30,7 @@ pub fn node_b<'s, I: Kind<'s>, R: Er<'s, I>>(this: &mut Bld<'s, I, R>, g: &G) ->
         }
         Ignored(a) if this.explicit => this.build(a).map(|_| Val::Unit).cb(),
         To(a, t) => this.build(a).to(Val::mark(*t, Val::Unit)).cb(),
-        Ignored(a) => this.build(a).ignored().map(|()| Val::Unit).cb(),
+        Ignored(a) => this.build(a).ignored().mb(|()| Val::Unit),
         Filter(a, p) => {
             let p = p.clone();
             this.build(a).filter(move |v| p.test(v)).cb()
@@ -111,13 +111,13 @@ pub fn node_b<'s, I: Kind<'s>, R: Er<'s, I>>(this: &mut Bld<'s, I, R>, g: &G) ->
         IntoIter(a, k) => {
             let it = this.build(a).map(|v: Val| v.into_items()).into_iter();
             match *k {
-                0 => it.collect::<Vec<Val>>().map(Val::List).cb(),
-                1 => it.count().map(|n| Val::Num(n as u64)).cb(),
-                2 => it.collect_exactly::<[Val; 0]>().map(|a| Val::List(a.into())).cb(),
-                3 => it.collect_exactly::<[Val; 1]>().map(|a| Val::List(a.into())).cb(),
-                4 => it.collect_exactly::<[Val; 2]>().map(|a| Val::List(a.into())).cb(),
-                5 => it.collect_exactly::<[Val; 3]>().map(|a| Val::List(a.into())).cb(),
-                _ => it.collect_exactly::<[Val; 4]>().map(|a| Val::List(a.into())).cb(),
+                0 => it.collect::<Vec<Val>>().mb(Val::List),
+                1 => it.count().mb(|n| Val::Num(n as u64)),
+                2 => it.collect_exactly::<[Val; 0]>().mb(|a| Val::List(a.into())),
+                3 => it.collect_exactly::<[Val; 1]>().mb(|a| Val::List(a.into())),
+                4 => it.collect_exactly::<[Val; 2]>().mb(|a| Val::List(a.into())),
+                5 => it.collect_exactly::<[Val; 3]>().mb(|a| Val::List(a.into())),
+                _ => it.collect_exactly::<[Val; 4]>().mb(|a| Val::List(a.into())),
             }
         }
         _ => unreachable!("node kind handled by another part of the builder"),
